@@ -316,7 +316,7 @@ func c02Session(w *World, variant bool) *c02Outcome {
 		out.Inbox = append(out.Inbox, normFields(r.T))
 	}
 	sort.Strings(out.Inbox)
-	out.Disk = SnapshotTree(filepath.Join(w.Dir, "sandbox"))
+	out.Disk = SnapshotTree(w.Sandbox)
 	for k, v := range out.Disk {
 		out.Disk[k] = reNewsDate.ReplaceAllString(v, "(DATE)")
 	}
